@@ -239,6 +239,17 @@ def run_case(rec, case):
         cur = {p: f for p, f in reg.items() if p not in late} if late else reg
         arrive_at = case.get("late_after", 0)
         stamps = list(case["stamps"])
+        lazy = None
+        if case.get("lazy_find_open") and layout.with_sat:
+            # interleaving on one object: a filtered, unsorted find() is being consumed lazily (one item
+            # taken) while the look-ups below run - as in a loop body
+            try:
+                lazy = fs.find(dt.datetime(2000, 1, 1), dt.datetime(2030, 1, 1), sort=False,
+                               filters={"sat": "metop"}, no_files_error=False)
+                next(lazy, None)
+                rec.count("closest.lazy_filtered_find_open")
+            except Exception:
+                lazy = None
         if case.get("handler_info") and layout.end_style == "disc" and not case.get("extra_stamps_done"):
             # a direct name hit (timestamp = start of a file), then a timestamp inside the part of that
             # file's real coverage that its name does not show
@@ -263,6 +274,8 @@ def run_case(rec, case):
                          set(names), periods, case, via, shared=shared,
                          sub_case=dict(case, stamps=stamps[:idx + 1], extra_stamps_done=True)
                          if (late or len(stamps) > len(case["stamps"])) else None)
+        if lazy is not None:
+            lazy.close()
     finally:
         shutil.rmtree(base, ignore_errors=True)
         shutil.rmtree(base + "-late", ignore_errors=True)
@@ -328,6 +341,8 @@ def gen_case(rng):
         case["late_after"] = rng.randrange(1, len(stamps) - 1)
     if layout.end_style == "disc" and rng.random() < 0.6:
         case["handler_info"] = True
+    if layout.with_sat and rng.random() < 0.4:
+        case["lazy_find_open"] = True
     if rng.random() < 0.25:
         case["prev_dirs"] = rng.choice([d[0] for d in fm.DIR_LAYOUTS
                                         if not any("{sat}" in x or "*" in x for x in d[1])
